@@ -308,7 +308,7 @@ def place_ghost_at_anchors(sf, ed, spec, lo, hi, used):
     or before the start of, the statement that contains the (unique) token sequence. Lost anchor => undecided."""
     st, m = sf.st, sf.m
     for key in list(spec.sections):
-        if isinstance(key, tuple) and key[0] in ('atloopstart', 'atloopend'):
+        if isinstance(key, tuple) and key[0] in ('atloopstart', 'atloopend', 'afterloop'):
             # ghost text at the very start / end of the body of the loop whose head starts with the tokens (independent of
             # what the body looks like)
             texts = plain_texts(key[1])
@@ -318,8 +318,10 @@ def place_ghost_at_anchors(sf, ed, spec, lo, hi, used):
             bo = hits[0][1]
             if key[0] == 'atloopstart':
                 ed.ins(st[bo].end, '\n' + spec.sections[key] + '\n')
-            else:
+            elif key[0] == 'atloopend':
                 ed.ins(st[m[bo]].start, '\n' + spec.sections[key] + '\n')
+            else:
+                ed.ins(st[m[bo]].end, '\n' + spec.sections[key] + '\n')
             used.add(key)
             continue
         if not (isinstance(key, tuple) and key[0] in ('after', 'before')):
@@ -914,6 +916,8 @@ def split_path_opts(rest):
 
 INCLUDED = []
 DEGRADED = []
+SKIP_VARIANTS = {}     # region name -> number of overlay variants (`//@ alt`) the runner has already seen rejected
+VARIANT_USED = {}      # region name -> (index used, number of variants)
 FORCE_DEGRADE = {}     # region name -> reason (set by the runner when the verifier rejects a construct inside that item)
 VAC_COUNTER = [0]
 FLAGS = set()
@@ -1221,9 +1225,9 @@ def expand_fragment(frag_name, text, out_lines, regions, log, vacuity=False):
                         # `loop N`: the N-th loop in textual order; `loop <<head>>`: the loop whose head starts with these
                         # tokens (survives a reordering of loops)
                         cur_sec = ('loopt', ml2.group(1)) if ml2 else (w[0], int(w[1]))
-                    elif w[0] in ('after', 'before', 'atloopstart', 'atloopend'):
+                    elif w[0] in ('after', 'before', 'atloopstart', 'atloopend', 'afterloop'):
                         flush()
-                        mc = re.match(r'^(after|before|atloopstart|atloopend)\s+<<(.*)>>\s*$', d2)
+                        mc = re.match(r'^(after|before|atloopstart|atloopend|afterloop)\s+<<(.*)>>\s*$', d2)
                         if not mc:
                             raise ExtractError('%s: bad %s directive (%s)' % (frag_name, w[0], d2))
                         cur_sec = (mc.group(1), mc.group(2))
@@ -1272,6 +1276,9 @@ def expand_fragment(frag_name, text, out_lines, regions, log, vacuity=False):
                 variants = spec.variants + [(spec.sections, spec.rws, spec.binds)]
                 last_err = None
                 for vi, (secs, rws_, binds_) in enumerate(variants):
+                    if vi < SKIP_VARIANTS.get(name, 0):
+                        last_err = ExtractError('the verifier rejects overlay variant %d of this item' % vi)
+                        continue
                     spec.sections, spec.rws, spec.binds = dict(secs), list(rws_), list(binds_)
                     try:
                         log_mark = len(log)
@@ -1279,6 +1286,7 @@ def expand_fragment(frag_name, text, out_lines, regions, log, vacuity=False):
                         text_ = emit_slice(spec, log, vacuity) if is_slice else emit_item(spec, log, vacuity)
                         emit(text_)
                         last_err = None
+                        VARIANT_USED[name] = (vi, len(variants))
                         break
                     except ExtractError as e_:
                         del log[log_mark:]
@@ -1326,7 +1334,7 @@ fn main() {}
 """
 
 
-def build_unit(unit, outdir, vacuity=False, force_degrade=None):
+def build_unit(unit, outdir, vacuity=False, force_degrade=None, skip_variants=None):
     """Returns dict(meta) and writes <outdir>/<unit>.rs"""
     upath = os.path.join(VX, 'units', unit + '.unit')
     frags = []
@@ -1351,6 +1359,9 @@ def build_unit(unit, outdir, vacuity=False, force_degrade=None):
     del DEGRADED[:]
     FORCE_DEGRADE.clear()
     FORCE_DEGRADE.update(force_degrade or {})
+    SKIP_VARIANTS.clear()
+    SKIP_VARIANTS.update(skip_variants or {})
+    VARIANT_USED.clear()
     FLAGS.clear()
     FLAGS.update(flags)
     for f in frags:
@@ -1363,7 +1374,7 @@ def build_unit(unit, outdir, vacuity=False, force_degrade=None):
     with open(out, 'w') as fh:
         fh.write('\n'.join(out_lines))
     meta = {
-        'unit': unit, 'file': out, 'fragments': frags + list(INCLUDED),
+        'unit': unit, 'file': out, 'fragments': frags + list(INCLUDED), 'variants': dict(VARIANT_USED),
         'regions': [{'name': r.name, 'props': r.props, 'kind': r.kind, 'frag': r.frag,
                      'first_line': r.first_line, 'last_line': r.last_line, 'path': r.path} for r in regions],
         'items': log,
